@@ -50,6 +50,12 @@ def flip_sites(f):
     (a, b, site variable or None, {slot: (stmt, value)}, guard test, polarity ok)."""
     groups = {}
     for st, ctx in walk(f.node):
+        if isinstance(st, ast.AugAssign) and isinstance(st.target, ast.Subscript) and isinstance(st.target.value, ast.Name):
+            # x[i] op= e is x[i] = x[i] op e (bits combined with ^ instead of + ... % 2)
+            import copy as _copy
+            ld = _copy.deepcopy(st.target)
+            ld.ctx = ast.Load()
+            st = ast.copy_location(ast.Assign(targets=[st.target], value=ast.BinOp(left=ld, op=st.op, right=st.value)), st)
         if not (isinstance(st, ast.Assign) and isinstance(st.targets[0], ast.Subscript) and isinstance(st.targets[0].value, ast.Name)):
             continue
         b = st.targets[0].value.id
